@@ -1574,7 +1574,15 @@ impl Formatter<'_> {
 
         // Signature
         if let Some(sig) = &func.signature {
-            let trailing_space = func.lines.len() <= 1
+            // An item that is not words (like a binding) ends its own line, so the
+            // empty line that follows it when it is formatted again is not a second line
+            let mut lines = func.lines.as_slice();
+            if !matches!(lines.first(), Some(Item::Words(_))) {
+                while lines.len() > 1 && lines.last().is_some_and(Item::is_empty_line) {
+                    lines = &lines[..lines.len() - 1];
+                }
+            }
+            let trailing_space = lines.len() <= 1
                 && !(func.word_lines().flatten()).any(|word| word_is_multiline(&word.value));
             self.format_signature(sig.value, trailing_space);
             if func.lines.is_empty() {
